@@ -7,6 +7,7 @@ import RsMatterVerif.Lemmas.CodecBtpBdx
 import RsMatterVerif.Lemmas.CodecQr
 import RsMatterVerif.Lemmas.CodecCheckIn
 import RsMatterVerif.Lemmas.CodecBleAdv
+import RsMatterVerif.Lemmas.CodecCertAsn1
 /-!
 # C17 — headers, onboarding payloads and discovery records decode what was encoded
 
@@ -289,5 +290,118 @@ example : BleAdv.WF { vid := 0xFFF1, pid := 0x8000, disc := 0xF00, additional :=
 theorem ble_adv_parse_total (adv : List Nat) :
     NoPanic (BleAdv.parseAdv adv) ∧ NoPanic (BleAdv.parseServiceData adv) :=
   ⟨BleAdv.parseAdv_np adv, BleAdv.parseServiceData_np adv⟩
+
+
+/-! ## (11) Matter-TLV certificate → X.509 DER: the DER writer `ASN1Writer` (`cert/asn1_writer.rs`), a DER
+reader, and `CertRef::as_asn1` (`cert.rs`) — D16c -/
+section DerCert
+open Codec.Der Codec.CertAsn1
+
+/-- length octets: the reader inverts the encoder for every length below 2^32 -/
+theorem der_len_roundtrip (n : Nat) (rest : List Nat) (h : n < 4294967296) :
+    decLen (encLen n ++ rest) = some (n, rest) :=
+  decLen_encLen n rest h
+
+/-- minimality: the only length octets the reader accepts for `n` are `encLen n` (no indefinite form, no
+leading zero, no long form for a short length) -/
+theorem der_len_minimal (l rest : List Nat) (n : Nat) (hb : ∀ b ∈ l, b < 256) (h : decLen l = some (n, rest)) :
+    n < 4294967296 ∧ l = encLen n ++ rest :=
+  decLen_canonical l rest n hb h
+example : decLen [0x82, 0x01, 0x00, 7] = some (256, [7]) := by decide
+
+/-- the length octets `encode_len` writes are DER's, for every length the writer supports -/
+theorem der_writer_len (n : Nat) (h : n < 65536) : lenBytes n = encLen n := lenBytes_eq_encLen n h
+
+/-- `parse (encode tree) = tree` for every tree with low tag numbers and lengths below 2^32 -/
+theorem der_parse_encode (d : Der) (hw : d.WF) (rest : List Nat) :
+    parseOne (fuelFor (d.enc ++ rest)) (d.enc ++ rest) = some (d, rest) ∧ parseDer d.enc = some d :=
+  ⟨parseOne_enc d hw _ (by have := fuel_le d; simp only [fuelFor, List.length_append]; omega) rest, parseDer_enc d hw⟩
+example : (Der.cons 0x30 [.prim 0x02 [5], .cons 0xA0 []]).WF :=
+  ⟨by decide, by decide, by decide, ⟨by decide, by decide, by decide⟩, ⟨by decide, by decide, by decide, trivial⟩, trivial⟩
+
+/-- what the reader accepts *is* the canonical (definite, minimal-length) encoding of the tree it returns -/
+theorem der_parse_canonical (l : List Nat) (d : Der) (hb : ∀ b ∈ l, b < 256) (h : parseDer l = some d) :
+    d.WF ∧ l = d.enc := by
+  unfold parseDer at h
+  split at h
+  · rename_i d' heq
+    simp only [Option.some.injEq] at h; subst h
+    have := (parse_sound (fuelFor l)).1 l d' [] hb heq
+    simpa using this
+  · simp at h
+
+/-- (ii) the writer never panics: any operation sequence (balanced or not, any nesting, any buffer) answers
+`Ok` or a clean error (`BufferTooSmall`, `Invalid`), provided every `utctime` argument is a date up to
+9999-12-31T23:59:59Z and the caller stops at the first error (`?`) -/
+theorem der_writer_never_panics (buf : List Nat) (ops : List Op) (h : ∀ op ∈ ops, op.argsOk) :
+    NoPanic ((W.new buf).run ops) :=
+  (Inv.new buf).run_noPanic ops h
+example : ∀ op ∈ [Op.startSeq, .utctime 252455615999, .endSeq, .endSeq], op.argsOk := by
+  intro op h; simp at h; rcases h with rfl | rfl | rfl | rfl <;> simp [Op.argsOk] <;> decide
+
+/-- (i) writer output = encode(tree): a balanced operation sequence (every start has its end) whose nesting stays
+below the depth limit, whose lengths the writer can encode and which fits the buffer (`needL`: an open compound
+holds 1 + 3 header bytes until it is closed) succeeds, and `as_slice()` is the encoding of the operations' tree -/
+theorem der_writer_output_is_encoding (buf : List Nat) (ops : List Op) (ns : List Node) (hb : forest ops = some ns)
+    (hh : Node.heightL ns < MAX_DEPTH) (hl : Node.lenOkL ns) (hfit : Node.needL ns ≤ buf.length) :
+    ∃ w, (W.new buf).run ops = .ok w ∧ w.asSlice = .ok (Node.encL ns) :=
+  run_balanced buf ops ns hb hh hl hfit
+example : forest [.startSeq, .integer [5], .startOstr, .bool true, .endOstr, .endSeq]
+    = some [.cons 0x30 [.prim 0x02 [5], .cons 0x04 [.prim 0x01 [0xFF]]]] := rfl
+example : Node.heightL [.cons 0x30 [.prim 0x02 [5], .cons 0x04 [.prim 0x01 [0xFF]]]] < MAX_DEPTH := by decide
+example : Node.needL [.cons 0x30 [.prim 0x02 [5], .cons 0x04 [.prim 0x01 [0xFF]]]] ≤ 16 := by decide
+
+/-- (i) … and the output parses as well-formed DER whose tree is the tree of the operations (`toDerL`: a
+compound OCTET STRING is a primitive whose content is the encoding of its children; `raw` bytes stand for the DER
+values they contain — the hypothesis `toDerL ns = some ds` says that they are DER) -/
+theorem der_writer_output_parses (buf : List Nat) (ops : List Op) (ns : List Node) (ds : List Der)
+    (hb : forest ops = some ns) (hh : Node.heightL ns < MAX_DEPTH) (hl : Node.lenOkL ns)
+    (hfit : Node.needL ns ≤ buf.length) (ht : Node.tagsOkL ns) (hd : Node.toDerL ns = some ds) :
+    ∃ w out, (W.new buf).run ops = .ok w ∧ w.asSlice = .ok out ∧ parseAll out = some ds :=
+  parse_run_balanced buf ops ns ds hb hh hl hfit ht hd
+
+/-- a buffer below 64 KiB that is large enough makes every length encodable -/
+theorem der_lengths_fit (ns : List Node) (h : Node.needL ns < 65536) : Node.lenOkL ns := lenOkL_of_needL ns h
+
+/-- UTCTime / GeneralizedTime: every instant the writer can write (year-2050 rule included) reads back as
+the same instant -/
+theorem cert_time_roundtrip (e : Nat) (h : MATTER_EPOCH_SECS + e ≤ MAX_UNIX) :
+    ∃ tag s, timeStr e = some (tag, s) ∧ parseTime (.prim tag s) = some e :=
+  parseTime_timeStr e h
+
+/-- `as_asn1` never panics: for *any* accessor results (readable or failing fields, any list contents) within
+the types' bounds and any buffer it returns the DER or an error -/
+theorem cert_as_asn1_never_panics (c : Cert) (hb : c.Bounds) (buf : List Nat) :
+    asAsn1 c buf ≠ .error (.w .panic) :=
+  asAsn1_noPanic c hb buf
+
+def certSample : Fields :=
+  { serial := [0x10, 0x43], signAlgo := 1
+    issuer := [{ tag := 20, val := .uint 1 }, { tag := 1, val := .printable [0x43, 0x41] }]
+    notBefore := 0x27812280, notAfter := 0
+    subject := [{ tag := 17, val := .uint 0xBC5C02 }, { tag := 21, val := .uint 1 }, { tag := 3, val := .utf8 [0x61] }]
+    pubkeyAlgo := 1, ecCurveId := 1, pubkey := [4, 1, 2, 3]
+    exts := [.basic true (some 0), .keyUsage 0x60, .extKeyUsage [2, 1], .subjKeyId [1, 2], .authKeyId [3]] }
+
+/-- (3) **certificate round trip, every certificate within the declared bounds** (`Fields.Legal`): `as_asn1`
+into any buffer with enough room (below 64 KiB) writes the encoding of `certNode`, which parses as DER, and the
+fields read back from it — serial, algorithms, every DN attribute with its OID / string type / value, both validity
+instants (0 = no well-defined expiry), the public key, every extension with criticality and value — are exactly
+the certificate's (`Fields.view`) -/
+theorem cert_der_roundtrip (f : Fields) (h : f.Legal) :
+    ∃ n, certNode f = some n ∧ ∀ buf : List Nat, n.need ≤ buf.length → buf.length < 65536 →
+      ∃ der d v, asAsn1 f.lazy buf = .ok der ∧ der = n.enc ∧ parseDer der = some d ∧
+        certFieldsOfDer d = some v ∧ f.view = some v :=
+  cert_roundtrip_legal f h
+example : (certNode certSample).map (fun n => decide (n.need ≤ Consts.c17MaxCertAsn1Len ∧ n.need < 65536)) = some true := by
+  decide +kernel
+example : certSample.Legal := by
+  refine ⟨rfl, rfl, rfl, by decide, by decide, ?_, ?_, ?_⟩
+  · intro a ha; simp [certSample] at ha; rcases ha with rfl | rfl <;> simp [Attr.WF]
+  · intro a ha; simp [certSample] at ha; rcases ha with rfl | rfl | rfl <;> simp [Attr.WF]
+  · intro e he; simp [certSample] at he
+    rcases he with rfl | rfl | rfl | rfl | rfl <;> simp [XExt.WF]
+
+end DerCert
 
 end C17
